@@ -96,6 +96,7 @@ impl Prop for C10 {
             ctx.label("dhw_grammar");
         }
         let n = e.b.n;
+        crate::common::label_long(ctx, &e.b);
         let t0 = e.b.render();
         let b1 = rewritten(c);
         let t1 = render_layout(&b1, &c.layout);
@@ -172,7 +173,7 @@ impl Prop for C10 {
         let split = c.rewrites.iter().any(|r| matches!(r, Rewrite::Split { .. }));
         let systems: std::collections::BTreeSet<i32> = e.b.lines.iter().map(|l| l.id).collect();
         let reordered = !c.layout.order.is_empty() && systems.len() >= 2;
-        let completion = c0.data.iter().any(|x| x.comment().starts_with("Equilibrado de consumo"));
+        let completion = crate::common::completion_happened(&e.b, &c0);
         if split {
             ctx.label("split");
         }
